@@ -14,6 +14,7 @@ from __future__ import annotations
 
 import asyncio
 import gc
+import os
 import time
 import warnings
 
@@ -63,7 +64,11 @@ def real_scenarios(draw, with_faults=True, kinds=None, only=None, fault_share=7)
                      "api": draw(st.sampled_from(["request", "request", "stream"])), "host": draw(st.sampled_from(["a.test", "a.test", "b.test"]))})
         big = draw(st.integers(0, 7)) == 0
         plans[tok] = bound_cost(draw(gen.h2_plans(big=big) if h2 else gen.h1_plans(big=big)))
-    sc = {"kind": kind, "variant": draw(st.sampled_from(VARIANTS)), "requests": reqs, "plans": plans,
+    uds = kind in ("direct-h1", "direct-tls-h1", "direct-h2", "prior-h2", "direct-h2-fallback-h1") and draw(st.integers(0, 3)) == 0
+    if uds:
+        for r in reqs:
+            r["host"] = "a.test"  # with uds= every connection of the pool goes to the one UNIX socket
+    sc = {"kind": kind, "variant": draw(st.sampled_from(VARIANTS)), "requests": reqs, "plans": plans, "uds": uds,
           "verify": draw(st.sampled_from(["none", "none", "ca"])), "fault": None, "ragged_close": draw(st.sampled_from([False, False, True]))}
     if with_faults and draw(st.integers(0, 9)) < fault_share:
         tls = kind in TLS_KINDS
@@ -80,6 +85,7 @@ def real_scenarios(draw, with_faults=True, kinds=None, only=None, fault_share=7)
                 sc["fault"]["ragged"] = draw(st.booleans())
         elif fk in ("refuse", "connect-stall"):
             sc["fault"] = {"connect": draw(st.sampled_from([0, 0, 1])), "kind": fk}
+            sc["uds"] = False
         elif fk == "read-stall":
             sc["fault"] = {"pipe": 0, "kind": fk, "at": draw(st.sampled_from([0, 1, 100, 5000]))}
             sc["requests"][0].update(method="POST", body="huge")
@@ -122,7 +128,7 @@ def body_for(req):
     return b"h" * (3 << 20)  # "huge": more than a shrunken socket buffer pair can absorb
 
 
-def build_real_pool(pool_cfg, sync, verify, backend=None, small_buffers=False):
+def build_real_pool(pool_cfg, sync, verify, backend=None, small_buffers=False, uds=None):
     import socket
 
     cfg = dict(pool_cfg)
@@ -139,6 +145,9 @@ def build_real_pool(pool_cfg, sync, verify, backend=None, small_buffers=False):
         kw["socket_options"] = [(socket.SOL_SOCKET, socket.SO_SNDBUF, 8192)]
     if backend is not None:
         kw["network_backend"] = backend
+    if uds is not None:
+        kw["uds"] = uds
+        kw.pop("socket_options", None)  # TCP-level options do not apply to a UNIX socket
     return (httpcore.ConnectionPool if sync else httpcore.AsyncConnectionPool)(**kw)
 
 
@@ -163,8 +172,15 @@ def run_real(sc, variant=None):
         warnings.simplefilter("always", ResourceWarning)
         with RealNet(cfg, fault) as net:
             net.ragged_close = bool(sc.get("ragged_close"))
+            uds_path = None
+            if sc.get("uds"):
+                import tempfile
+
+                uds_dir = tempfile.mkdtemp(prefix="vfuds")
+                uds_path = os.path.join(uds_dir, "s")
+                net.unix_listener(uds_path, f"a.test:{port}")
             if variant == "sync":
-                pool = build_real_pool(pool_cfg, True, sc["verify"], small_buffers=small)
+                pool = build_real_pool(pool_cfg, True, sc["verify"], small_buffers=small, uds=uds_path)
                 for s in specs:
                     t0 = time.monotonic()
                     o = sync_request(pool, s)
@@ -176,7 +192,7 @@ def run_real(sc, variant=None):
             else:
                 async def go():
                     backend = httpcore.AnyIOBackend() if variant == "anyio-trio" else None
-                    pool = build_real_pool(pool_cfg, False, sc["verify"], backend=backend, small_buffers=small)
+                    pool = build_real_pool(pool_cfg, False, sc["verify"], backend=backend, small_buffers=small, uds=uds_path)
                     for s in specs:
                         t0 = time.monotonic()
                         o = await async_request(pool, s)
@@ -206,6 +222,10 @@ def run_real(sc, variant=None):
                             for p in net.pipes]
             rec["harness_errors"] = list(net.errors)
             rec["attempts"] = net.connect_attempts
+        if uds_path is not None:
+            import shutil
+
+            shutil.rmtree(uds_dir, ignore_errors=True)
         gc.collect()
     # CPython's ssl.SSLSocket._create() detaches the plain socket first and can then raise (recv(1) on a connection that was reset meanwhile)
     # without closing the half-made SSLSocket: that descriptor is never visible to httpcore. Such objects lack the `_connected` attribute.
@@ -355,6 +375,8 @@ def judge(sc, rec):
     tags = [kind, "variant-" + rec["variant"], "fault-" + (fk or "none") + ("" if fired or not fk else "-not-reached"), f"requests={len(sc['requests'])}"]
     if sc.get("ragged_close") and kind in TLS_KINDS:
         tags.append("tls-close-without-close_notify")
+    if sc.get("uds"):
+        tags.append("unix-socket")
     if any(p["tls"] >= 2 for p in rec["pipes"]):
         tags.append("tls-in-tls")
     if any(o["exc"] is None and len(o["body"]) > 60000 for o in rec["outs"]):
